@@ -124,11 +124,13 @@ Inductive passthru (ok : Z -> Prop) : list Z -> Prop :=
 
 Definition is_ascii (c : Z) : Prop := 0 <= c < 128.
 
-(* Unicode White_Space, for "apart from outer whitespace" *)
+(* Unicode White_Space, for "apart from trailing white space" *)
 Definition white (c : Z) : bool :=
   ((9 <=? c) && (c <=? 13)) || (c =? 32) || (c =? 0x85) || (c =? 0xA0) || (c =? 0x1680)
   || ((0x2000 <=? c) && (c <=? 0x200A)) || (c =? 0x2028) || (c =? 0x2029) || (c =? 0x202F)
   || (c =? 0x205F) || (c =? 0x3000).
 Fixpoint strip_left (s : list Z) : list Z :=
   match s with c :: r => if white c then strip_left r else s | [] => [] end.
+(* white space removed at the end only: what the converter does to its result *)
+Definition strip_right (s : list Z) : list Z := rev (strip_left (rev s)).
 Definition strip (s : list Z) : list Z := rev (strip_left (rev (strip_left s))).
